@@ -86,6 +86,13 @@ func (m c02) genCase(ctx *core.Ctx, cfg []string, maxLong int) *core.Case {
 	if r.IntN(40) == 0 {
 		cs.Check = "newurl"
 	}
+	if r.IntN(30) == 0 {
+		// a parameter list just beyond a small/large cut-off, with the names the look-ups after every step use
+		for j := gen.Pick(r, gen.ThresholdSizes[:5]); j > 0; j-- {
+			cs.Ops = append(cs.Ops, sOp("sp.append", gen.Pick(r, []string{"a", "b", "c", "k", "a"}), fmt.Sprint(j)))
+		}
+		cs.Ops = append(cs.Ops, sOp(gen.Pick(r, []string{"search", "hash", "pathname"}), gen.Pick(r, []string{"", "", "x=1", "a=2"})))
+	}
 	n := r.IntN(6)
 	for i := 0; i < n; i++ {
 		op := genOp(r, histKinds{setters: true, resolve: true, clone: true, sp: true, spRead: true})
@@ -151,14 +158,40 @@ type canonicalizerIface interface {
 	Canonicalize(u *url.Url) (*url.Url, error)
 }
 
-func touchAll(u *url.Url) {
-	_ = obs.Take(u)
-	_ = u.ValidationErrors()
-	sp := u.SearchParams()
-	_ = sp.String()
-	_ = sp.Has("a")
-	_ = sp.Get("a")
-	_ = sp.GetAll("a")
+func touchAll(u *url.Url) { touchAllOrdered(u, 0) }
+
+// touchAllOrdered reads everything; which read comes first depends on order (a read may refresh
+// state that another read would have tripped over).
+func touchAllOrdered(u *url.Url, order int) {
+	lookups := func() {
+		sp := u.SearchParams()
+		switch order % 3 {
+		case 0:
+			_ = sp.String()
+			_ = sp.Has("a")
+			_ = sp.Get("a")
+			_ = sp.GetAll("a")
+		case 1:
+			_ = sp.Get("a")
+			_ = sp.GetAll("k")
+			_ = sp.Has("b")
+			_ = sp.String()
+		default:
+			_ = sp.GetAll("a")
+			_ = sp.Has("a")
+			_ = sp.Get("c")
+			_ = sp.String()
+		}
+	}
+	if order%2 == 1 {
+		lookups()
+		_ = u.ValidationErrors()
+		_ = obs.Take(u)
+	} else {
+		_ = obs.Take(u)
+		_ = u.ValidationErrors()
+		lookups()
+	}
 	c := u.Clone()
 	_ = c.Href(false)
 }
@@ -205,12 +238,23 @@ func (c02) Exec(ctx *core.Ctx, cs *core.Case) {
 		ctx.Violate("a getter panics on a URL returned with a nil error", "returns normally", pan.String(), "site "+pan.Site)
 		return
 	}
+	// observation: a third of the cases read nothing between the steps (everything is read once,
+	// after the last step); the order of the reads varies per case
+	hsh := cs.Hash()
+	quiet := hsh%3 == 1
+	order := int(hsh >> 8 % 6)
+	grown := 0
 	for i, op := range cs.Ops {
 		var href string
-		if pan := ctx.Call(64, func() { href = u.Href(false) }); pan != nil {
-			ctx.Violate("Href panics after a history step", "returns normally", pan.String(), fmt.Sprintf("before op %d", i))
-			return
+		if !quiet {
+			if pan := ctx.Call(64, func() { href = u.Href(false) }); pan != nil {
+				ctx.Violate("Href panics after a history step", "returns normally", pan.String(), fmt.Sprintf("before op %d", i))
+				return
+			}
+		} else {
+			href = strings.Repeat("?", grown+256) // not read: only its length feeds the budget
 		}
+		grown += opBytes(op)
 		budget := opBytes(op) + len(href) + total
 		pan := ctx.Call(budget, func() {
 			if op.Name == "canonicalize" {
@@ -223,14 +267,17 @@ func (c02) Exec(ctx *core.Ctx, cs *core.Case) {
 			}
 			u = applyOp(u, op)
 		})
-		if pan == nil {
-			pan = ctx.Call(budget+len(href)+64, func() { touchAll(u) })
+		if pan == nil && (!quiet || i == len(cs.Ops)-1) {
+			pan = ctx.Call(budget+len(href)+64, func() { touchAllOrdered(u, order) })
 		}
 		if pan != nil {
 			ctx.Nontrivial()
 			class := "panic in " + opKind(op.Name)
 			if pan.Budget {
 				class = opKind(op.Name) + " exceeded the step budget"
+			}
+			if quiet {
+				href = "(not read: quiet case)"
 			}
 			ctx.Violate(class, "returns normally", pan.String(), fmt.Sprintf("op %d %s, site %s, url before: %q", i, clipS(op.String(), 200), pan.Site, clipS(href, 200)))
 			return
